@@ -291,9 +291,10 @@ std::shared_ptr<SockAddrStorage> SocketImpl::GetPeerName() const
   return sas;
 }
 
-void SocketImpl::DriverQuery(short &)
+bool SocketImpl::DriverQuery(short &)
 {
   // only actively used by the TLS socket
+  return false;
 }
 
 void SocketImpl::DriverPending()
